@@ -155,7 +155,9 @@ class Row(Vector):
 		# to see if it has dimensions (is a Vector/Table)
 		first_val = self._raw_cols[0][self._index]
 		
-		if hasattr(first_val, 'shape'):
+		# (only a nested vector adds dimensions: any other cell that happens to carry a
+		# .shape attribute - an array, a user object - is one cell of a two-dimensional table)
+		if isinstance(first_val, Vector):
 			return (my_len,) + first_val.shape
 		
 		return (my_len,)
